@@ -3,6 +3,8 @@ package main
 import (
 	"rscheck/driver"
 	"rscheck/rules/c07"
+	"rscheck/rules/c16"
+	"rscheck/rules/c17"
 )
 
-func main() { driver.Main([]driver.PropDef{c07.Def}) }
+func main() { driver.Main([]driver.PropDef{c07.Def, c16.Def, c17.Def}) }
